@@ -7,6 +7,7 @@ import AdaptiveModel.SeqLearner
 import AdaptiveModel.LND
 import AdaptiveModel.Integ
 import AdaptiveProofs.Props.C16Full
+import AdaptiveProofs.Lemmas.L2D
 
 /-!
 # C09 — asking without committing leaves a learner unchanged; committing is the same ask
@@ -173,4 +174,70 @@ theorem avg1d_ask_nocommit_noop (s : State α) (n : Nat) (c : α) :
   Avg1DFull.ask_commit lossFn r12 sqrt s n c
 end avg1dfull
 
+end C09
+
+/-! ### Learner2D (bookkeeping model `AdaptiveModel/L2D.lean`, added after the header above was written; the geometry is an
+oracle; proofs in `Lemmas/L2D.lean`).  Learner2D is the one learner whose non-committing `ask` is NOT a no-op: it rewrites the
+private suggestion stack. -/
+namespace C09
+section l2d
+open L2D
+variable {V L : Type}
+
+/-- `ask` never touches `data`/`npoints` (committing or not, returning or raising), and the two flavours return the same
+points and loss improvements. -/
+theorem l2d_ask_data_and_answer (c : Cfg L) (cands : Oracle V L) (s : State V L) (n : Nat) (commit : Bool) :
+    (ask c cands s n commit).1.data = s.data ∧ npoints (ask c cands s n commit).1 = npoints s ∧
+    (ask c cands s n false).2 = (ask c cands s n true).2 :=
+  ⟨ask_data c cands s n commit, ask_npoints c cands s n commit, ask_ret_eq c cands s n⟩
+
+/-- a non-committing `ask` that returns leaves the pending set exactly as it was, provided no stack key is pending (invariant
+of `CandsFresh` histories) and the oracle proposes no pending point (`L2D.Ex.nocommit_ask_can_unpend` without that). -/
+theorem l2d_ask_nocommit_pending (c : Cfg L) (cands : Oracle V L) (hc : CandsNotPending cands) (s : State V L) (n : Nat)
+    (hs : ∀ p ∈ keys s.stack, p ∉ s.pending) {s' : State V L} {ret : List (Nat × L)}
+    (h : ask c cands s n false = (s', .ok ret)) : s'.pending = s.pending :=
+  ask_false_pending c cands hc s n hs h
+
+/-- … in particular along every history with fresh oracles -/
+theorem l2d_ask_nocommit_pending_reach (c : Cfg L) (ops : List (Op V L)) (hops : ∀ op ∈ ops, OpFresh op)
+    (cands : Oracle V L) (hc : CandsFresh cands) (n : Nat) {s' : State V L} {ret : List (Nat × L)}
+    (h : ask c cands (run c (init c) ops) n false = (s', .ok ret)) :
+    s'.pending = (run c (init c) ops).pending ∧ s'.data = (run c (init c) ops).data :=
+  ⟨ask_false_pending c cands hc.1 _ n (inv1_reach c ops hops).stackNotPending h,
+   by have := ask_data c cands (run c (init c) ops) n false; rw [h] at this; exact this⟩
+
+/-- THE MECHANISM, for every oracle and state: the non-committing `ask` gives the answer of the committing one and rewrites
+the stack with `OrderedDict(zip(points[:stack_size], loss_improvements))`, `points` being everything the call collected. -/
+theorem l2d_ask_nocommit_rewrites_stack (c : Cfg L) (cands : Oracle V L) (s : State V L) (n : Nat) {s' : State V L}
+    {ret : List (Nat × L)} (h : ask c cands s n false = (s', .ok ret)) :
+    ∃ s2 pts, askCore c cands s n = (s2, .ok pts) ∧ ask c cands s n true = (s2, .ok ret) ∧ ret = pts.take n ∧
+      s'.stack = ofPairs (pts.take c.stackSize) ∧ s'.data = s.data :=
+  ask_false_vs_true c cands s n h
+
+/-- characterisation for well-behaved geometry (candidates fresh, distinct, in bounds; stack keys distinct, in bounds, not
+pending): the stack after `ask n false` is exactly the first `stack_size` entries of (returned points ++ the stack the
+committing `ask` leaves). -/
+theorem l2d_ask_nocommit_stack_char (c : Cfg L) (cands : Oracle V L) (hc : CandsGood c cands) (s : State V L)
+    (hs : StackGood c s) (n : Nat) {s' : State V L} {ret : List (Nat × L)}
+    (h : ask c cands s n false = (s', .ok ret)) :
+    ∃ s2, ask c cands s n true = (s2, .ok ret) ∧ s'.stack = (ret ++ s2.stack).take c.stackSize :=
+  ask_false_stack_char c cands hc s hs n h
+
+/-- … along every history of a learner whose corners are in bounds, with well-behaved geometry throughout -/
+theorem l2d_ask_nocommit_stack_char_reach (c : Cfg L) (hcor : ∀ p ∈ c.corners, c.inB p = true) (ops : List (Op V L))
+    (hops : ∀ op ∈ ops, OpGood c op) (cands : Oracle V L) (hc : CandsGood c cands) (n : Nat) {s' : State V L}
+    {ret : List (Nat × L)} (h : ask c cands (run c (init c) ops) n false = (s', .ok ret)) :
+    ∃ s2, ask c cands (run c (init c) ops) n true = (s2, .ok ret) ∧
+      s'.stack = (ret ++ s2.stack).take c.stackSize :=
+  ask_false_stack_char_reach c hcor ops hops cands hc n h
+
+/-- when the stack already holds the `n` requested entries, is not longer than `stack_size`, and its first `n` keys are not
+pending, the non-committing `ask` returns the state it was given (`L2D.Ex.nocommit_truncates_long_stack` without the
+`stack_size` guard; `L2D.Ex.nocommit_rewrites_stack` / `nocommit_changes_later_answers` when `n` exceeds the stack). -/
+theorem l2d_ask_nocommit_noop (c : Cfg L) (cands : Oracle V L) (s : State V L) (n : Nat) (hn : n ≤ s.stack.length)
+    (hk : s.stack.length ≤ c.stackSize) (hnd : (keys s.stack).Nodup)
+    (hnp : ∀ p ∈ keys (s.stack.take n), p ∉ s.pending) :
+    ask c cands s n false = (s, .ok (s.stack.take n)) :=
+  ask_false_noop c cands s n hn hk hnd hnp
+end l2d
 end C09
